@@ -24,6 +24,8 @@ def main():
         if r is not None and r.get("applies"):
             ok = bool(r.get("caught"))
             v = (r.get("first") or "").replace("violation:", "").strip()[:110].replace("|", "/") if ok else ""
+            if not ok and r.get("caught_by_other"):
+                v = "reported by another property's check: " + r["caught_by_other"][:90].replace("|", "/")
         n += 1
         caught += ok
         rows.append("| %s | %s | %s | %s |" % (os.path.basename(d), desc, "caught (exit 1)" if ok else "not reported", v))
